@@ -1182,6 +1182,13 @@ func dispatch(op, pat string, args []string, a *argTrack) string {
 	case "u.infield":
 		need(args, 1)
 		return showBool(utils.CheckBigIntInField(a.Int(args[0])))
+	case "u.elemarr":
+		// []*big.Int -> []*ff.Element -> []*big.Int: every entry comes back as its residue mod q
+		need(args, 1)
+		l := a.IntList(args[0])
+		back := utils.ElementArrayToBigIntArray(utils.BigIntArrayToElementArray(l))
+		a.Ret(back)
+		return showInts(back)
 	case "u.arrinfield":
 		need(args, 1)
 		return showBool(utils.CheckBigIntArrayInField(a.IntList(args[0])))
